@@ -570,6 +570,11 @@ def _obligations_for(prop, tier):
             obs += p_product("N2", thorough, H=12 if thorough else 8, timeout=900 if thorough else 150)
             obs += p_nested_release(thorough, timeout=900 if thorough else 150)
         if prop == "C06":
+            # the run follows a complete run on an edited model (a team added afterwards, other skills, other absence steps)
+            ed = [ob for ob in p_contention(thorough, H=12 if thorough else 8, timeout=900 if thorough else 150)
+                  if "/rule=0/" in ob["name"] and "solo=None" in ob["name"] and "fix=None" in ob["name"] and ("/indep/" in ob["name"] or "/fork/" in ob["name"] or thorough)]
+            obs += with_history(ed, "edited-model", 2)
+        if prop == "C06":
             obs += p_absence(wmax=3 if thorough else 2, H=12 if thorough else 8, timeout=900 if thorough else 200, kinds=(0, 2) if not thorough else (0, 1, 2, 3))
         if prop == "C04":
             obs += p_idclash(thorough, H=12 if thorough else 8, timeout=900 if thorough else 150)
